@@ -363,7 +363,7 @@ INL = ["a", "*e*", "**s**", "`c`", "[l](http://u)", "![i](v)", "<b>", "<http://x
        "&amp;", "\\*", "[](http://e)", "****", "$m$", "~~s *e*~~", "*a **b** c*", "`` ` ``", "[a `c` **b**](<u v>)", "\"q\" -- ...",
        "![see [the *manual*](http://u) here](i.png)", "![~~s~~ **b** <i>h</i> &amp;](v)", "[![in](v) link](http://w)",
        "![p](my%20plot.png)", "![p](<a b.png>)", "![p](\u00e9.png \"t\")", "![p](http://x/a%20b.png)", "[l](my%20doc.txt) [m](<a b.txt>)",
-       "[`code only`](w) [$m$](w2)", "`  two  ` ``  `tick`  `` ` x `", "*outer _inner_ tail*", "_*both*_ **__s__**"]
+       "[`code only`](w) [$m$](w2)", "`  two  ` ``  `tick`  `` ` x `", "[t](some/target#frag) [](other/doc#f2)", "*outer _inner_ tail*", "_*both*_ **__s__**"]
 INL_CTX = {
     "para": lambda s: s + "\n",
     "head": lambda s: "## " + s.replace("\\\n", " ").replace("\n", " ") + "\n",
